@@ -29,9 +29,10 @@ def mark(tag):
     return {"op": "now", "tag": tag}
 
 
-def row(name, op, resources=None, setup=(), helpers=(), between=("mark+", "mark-")):
+def row(name, op, resources=None, setup=(), helpers=(), between=("mark+", "mark-"),
+        spin_after=0):
     return {"name": name, "op": op, "resources": resources or {}, "setup": list(setup),
-            "helpers": list(helpers), "between": between}
+            "helpers": list(helpers), "between": between, "spin_after": spin_after}
 
 
 def table():
@@ -120,6 +121,11 @@ def table():
         rows.append(row("%s(0) steps" % kind,
                         {"op": "ticker", "kind": kind, "p": 0, "bodies": [0, 0, 0]},
                         between=(kind + ".tick", kind + ".tick")))
+    for period in (1, 2):
+        rows.append(row("interval(%r) step after a body of exactly %r" % (period, period),
+                        {"op": "ticker", "kind": "interval", "p": period,
+                         "bodies": [period, period]},
+                        between=("interval.bodyend", "interval.tick"), spin_after=2 * period))
     rows.append(row("collect()", {"op": "collect", "id": "c", "acts": []},
                     between=("collect+", "collect-")))
     quick = [{"name": "q0", "ops": [], "ret": 1}, {"name": "q1", "ops": [], "ret": 2}]
@@ -158,7 +164,10 @@ def build(index, rng):
     actors.append({"name": "x", "ops": xops})
     for i in range(rng.randint(1, 4)):
         ops = []
-        for _ in range(rng.randint(0, 2)):
+        if spec.get("spin_after"):
+            ops.append({"op": "sleep", "d": spec["spin_after"]})
+            ops.append({"op": "now", "tag": "spin"})
+        for _ in range(rng.randint(0, 2) if not spec.get("spin_after") else 0):
             ops.append({"op": "postpone", "k": 1})
         for _ in range(40):
             ops.append({"op": "postpone", "k": 1})
@@ -218,6 +227,15 @@ def check(rec):
     for s, e in spans:
         if rec.trace[s][2] != rec.trace[e][2]:
             continue                       # the clock advanced
+        if rec.trace[s][1] == rec.trace[e][1] and rec.acts:
+            # started and completed within one activation: nobody else can have run
+            now, me = rec.trace[e][2], rec.trace[e][3]
+            behind = [a for a in rec.acts[rec.trace[e][1]:] if a[1] == now and a[2] != me
+                      and not a[2].startswith("~")]
+            if behind:
+                bad("no-yield", "row %r: %s completed at t=%r within one activation although %s "
+                    "was runnable at that time" % (name, rec.trace[s][4], now, behind[0][2]))
+                continue
         for spinner, turns in spinners.items():
             if turns[0] < s and turns[-1] > e and not any(s < t < e for t in turns):
                 bad("no-yield", "row %r: %s completed (log %d..%d, t=%r) without %s getting a turn"
